@@ -84,6 +84,60 @@ impl<T: Source> ReplaceSource<T> {
 """
 
 
+GLUE_VIEWS = r"""
+// public mirror of a replacement (the struct is private) and of the call history held by a ReplaceSource
+// (the `name` given with a replacement does not influence the text - it belongs to C06 - and is left out on purpose)
+pub struct RV { pub start: u32, pub end: u32, pub content: Seq<char>, pub enforce: ReplacementEnforce }
+impl Replacement {
+  pub closed spec fn rv(&self) -> RV { RV { start: self.start, end: self.end, content: self.content@, enforce: self.enforce } }
+}
+impl<T> ReplaceSource<T> {
+  /// the sequence of mutating calls made so far, in call order
+  pub closed spec fn rvs(&self) -> Seq<RV> { self.replacements@.map_values(|r: Replacement| r.rv()) }
+  pub closed spec fn inner_id(&self) -> Arc<T> { self.inner }
+}
+pub assume_specification<T>[std::sync::Mutex::<T>::new](_0: T) -> std::sync::Mutex<T>;
+pub assume_specification<'a>[<String as From<&'a str>>::from](s: &str) -> (r: String)
+  ensures r@ == s@;
+"""
+
+
+def c2_into_closure(it, fn):
+    """C2: `name.map(|s| s.into())` -> `name.map(|s: &str| -> (r: String) ensures r@ == s@ { s.into() })`
+    (Verus needs a closure's type and spec written out; the ensures is the contract of `<String as From<&str>>::from`)"""
+    return it.rule_opt("C2", r"\.map\(\|(\w+)\|\s*\1\.into\(\)\)", r".map(|\1: &str| -> (r: String) ensures r@ == \1@ { \1.into() })", fn=fn)
+
+
+def build_mutators(u):
+    """ReplaceSource::new / original / replace / replace_with_enforce / insert / insert_with_enforce and Replacement::new:
+    every mutator appends exactly the call it was given to the history and leaves the inner source alone - for all
+    history lengths (the Kani stage K1 adds the lazy-sort flag, which Verus cannot see through AtomicBool)."""
+    M = ["C05"]
+    rn = u.item("src/replace_source.rs", "impl Replacement {")
+    rn.sig("new", [("Replacement::new.ensures", "contract",
+                    "ensures r.rv() == (RV { start, end, content: content@, enforce })", M)], ret="r")
+    a = u.item("src/replace_source.rs", "impl<T> ReplaceSource<T> {")
+    # the private sort helpers live in the same impl block: they stay outside Verus (Mutex/itertools); K1 checks them
+    a.rule("D7", r"\n  fn sort_replacement\(&self\) \{.*?\n  \}\n", "\n", count=1)
+    a.rule("D7", r"\n  fn sorted_replacement\(&self\) -> Vec<&Replacement> \{.*?\n  \}\n", "\n", count=1)
+    a.sig("new", [("ReplaceSource::new.ensures", "contract", "ensures r.rvs() =~= Seq::<RV>::empty(), *r.inner_id() == source", M)], ret="r")
+    a.sig("original", [("ReplaceSource::original.ensures", "contract", "ensures *r == *self.inner_id()", M)], ret="r")
+    b = u.item("src/replace_source.rs", "impl<T: Source> ReplaceSource<T> {")
+    for fn in ("replace", "replace_with_enforce"):
+        c2_into_closure(b, fn)
+    APP = "ensures final(self).rvs() =~= old(self).rvs().push(RV {{ start, end: {end}, content: content@, enforce: {enf} }}),\n  final(self).inner_id() == old(self).inner_id()"
+    b.sig("insert", [("insert.appends", "contract", APP.format(end="start", enf="ReplacementEnforce::Normal"), M)])
+    b.sig("insert_with_enforce", [("insert_with_enforce.appends", "contract", APP.format(end="start", enf="enforce"), M)])
+    b.sig("replace", [("replace.appends", "contract", APP.format(end="end", enf="ReplacementEnforce::Normal"), M)])
+    b.sig("replace_with_enforce", [("replace_with_enforce.appends", "contract", APP.format(end="end", enf="enforce"), M)])
+    for it, fns in ((rn, ["new"]), (a, ["new", "original"]), (b, ["insert", "insert_with_enforce", "replace", "replace_with_enforce"])):
+        for fn in fns:
+            it.body_start(fn, f"canary.{it.anchor.split('{')[0].strip()}::{fn}", "canary", "proof { assert(false); }")
+    u.contracted += [("Replacement::new", "src/replace_source.rs"), ("ReplaceSource::new", "src/replace_source.rs"), ("ReplaceSource::original", "src/replace_source.rs"),
+                     ("ReplaceSource::insert", "src/replace_source.rs"), ("ReplaceSource::insert_with_enforce", "src/replace_source.rs"),
+                     ("ReplaceSource::replace", "src/replace_source.rs"), ("ReplaceSource::replace_with_enforce", "src/replace_source.rs")]
+
+
 def f1_name_for_iter(it, fn):
     """F1: `for P in E {` -> `for P in it: E {` (names Verus's ghost iterator; no executable change)"""
     s = it.buf.text
@@ -228,7 +282,7 @@ def build_rope(u, s):
 
 def build(u):
     for x in ["use vstd::utf8::*;", "use vstd::string::StringSliceAdditionalSpecFns;", "use vstd::slice::SliceIndexSpec;",
-              "use std::borrow::Cow;", "use std::sync::{Arc, Mutex, atomic::AtomicBool};", "use std::ops::Index;", "use std::slice::SliceIndex;"]:
+              "use std::borrow::Cow;", "use std::sync::{Arc, Mutex, atomic::{AtomicBool, Ordering}};", "use std::ops::Index;", "use std::slice::SliceIndex;"]:
         u.use(x)
     u.raw("broadcast use {vstd::string::group_string_axioms, vstd::utf8::group_utf8_lib};", ("glue", NAME))
     u.spec("splice_spec.rs")
@@ -239,6 +293,8 @@ def build(u):
     u.item("src/replace_source.rs", "struct Replacement {")
     u.item("src/replace_source.rs", "pub struct ReplaceSource<T> {")
     u.raw(GLUE_SPEC, ("glue", NAME))
+    u.raw(GLUE_VIEWS, ("glue", NAME))
+    build_mutators(u)
     u.raw("impl<T: Source> ReplaceSource<T> {", ("glue", NAME))
     s = u.method("src/replace_source.rs", "impl<T: Source + Hash + PartialEq + Eq + 'static> Source for ReplaceSource<T>", "source")
     rp = u.method("src/replace_source.rs", "impl<T: Source + Hash + PartialEq + Eq + 'static> Source for ReplaceSource<T>", "rope")
